@@ -3,6 +3,7 @@ from __future__ import annotations
 
 import ast
 
+from .model import norm, walk_own, walk_with_nested_exprs
 from .sqlmodel import local_defs
 
 
@@ -54,7 +55,7 @@ def deep(e, fi, depth=5, stop=()):
         def visit_Name(self, n):
             if isinstance(n.ctx, ast.Load) and n.id not in fi.params and n.id not in stop:
                 v = resolve(n, fi)
-                if v is not n and not isinstance(v, (ast.Lambda, ast.ListComp, ast.DictComp, ast.SetComp, ast.GeneratorExp, ast.Await, ast.Yield)):
+                if v is not n and not isinstance(v, (ast.Lambda, ast.Await, ast.Yield)):
                     return deep(ast.parse(ast.unparse(v), mode="eval").body, fi, depth - 1, stop)
             return n
 
@@ -62,3 +63,80 @@ def deep(e, fi, depth=5, stop=()):
             return n
 
     return R().visit(ast.parse(ast.unparse(e), mode="eval").body)
+
+
+def map_desc(fi, e):
+    """Describe a list / dict that is built as  prefix + [E(x) for x in IT]  (comprehension, append loop, += / extend)
+    -> (prefix element texts, iterable text, element text with the loop variable written `_`, 'key' for dicts) or None"""
+
+    class _R(ast.NodeTransformer):
+        def __init__(self, var):
+            self.var = var
+
+        def visit_Name(self, n):
+            return ast.copy_location(ast.Name(id="_", ctx=n.ctx), n) if n.id == self.var else n
+
+    def elt_text(elt, var):
+        return norm(_R(var).visit(ast.parse(ast.unparse(elt), mode="eval").body))
+
+    def comp(c, prefix):
+        if isinstance(c, (ast.ListComp, ast.GeneratorExp)) and len(c.generators) == 1 and not c.generators[0].ifs and isinstance(c.generators[0].target, ast.Name):
+            g = c.generators[0]
+            return (prefix, norm(g.iter), elt_text(c.elt, g.target.id), None)
+        if isinstance(c, ast.DictComp) and len(c.generators) == 1 and not c.generators[0].ifs and isinstance(c.generators[0].target, ast.Tuple) and len(c.generators[0].target.elts) == 2:
+            g = c.generators[0]
+            k, v = [norm(x) for x in g.target.elts]
+            if norm(c.key) == k:
+                return (prefix, norm(g.iter), elt_text(c.value, v), "key")
+        return None
+
+    if isinstance(e, (ast.ListComp, ast.DictComp)):
+        return comp(e, [])
+    if isinstance(e, ast.BinOp) and isinstance(e.op, ast.Add) and isinstance(e.left, ast.List):
+        return comp(e.right, [norm(x) for x in e.left.elts])
+    if isinstance(e, ast.List) and e.elts and isinstance(e.elts[-1], ast.Starred):
+        return comp(e.elts[-1].value, [norm(x) for x in e.elts[:-1]])
+    if not isinstance(e, ast.Name):
+        return None
+    acc = e.id
+    inits = [n for n in walk_own(fi.node) if isinstance(n, (ast.Assign, ast.AnnAssign)) and norm(n.targets[0] if isinstance(n, ast.Assign) else n.target) == acc]
+    if len(inits) != 1 or inits[0].value is None:
+        return None
+    init = inits[0].value
+    if isinstance(init, (ast.ListComp, ast.DictComp, ast.BinOp)) or (isinstance(init, ast.List) and init.elts and isinstance(init.elts[-1], ast.Starred)):
+        others = [n for n in walk_with_nested_exprs(fi.node) if isinstance(n, ast.Call) and isinstance(n.func, ast.Attribute) and norm(n.func.value) == acc]
+        return None if others else map_desc(fi, init)
+    if isinstance(init, ast.List):
+        prefix = [norm(x) for x in init.elts]
+    elif (isinstance(init, ast.Dict) and not init.keys) or norm(init) in ("dict()", "list()"):
+        prefix = []
+    else:
+        return None
+    muts = []
+    for n in walk_own(fi.node):
+        if isinstance(n, ast.For) and isinstance(n.target, (ast.Name, ast.Tuple)):
+            body = [x for x in n.body if not (isinstance(x, ast.Expr) and isinstance(x.value, ast.Constant))]
+            touching = [x for x in body if any(isinstance(y, ast.Name) and y.id == acc for y in ast.walk(x))]
+            if not touching:
+                continue
+            exits = [y for x in n.body for y in ast.walk(x) if isinstance(y, (ast.Break, ast.Continue, ast.Return))]
+            if len(touching) == 1 and not exits and not n.orelse:
+                b0 = touching[0]
+                if isinstance(n.target, ast.Name) and isinstance(b0, ast.Expr) and isinstance(b0.value, ast.Call) and norm(b0.value.func) == f"{acc}.append" and len(b0.value.args) == 1:
+                    muts.append((prefix, norm(n.iter), elt_text(b0.value.args[0], n.target.id), None))
+                    continue
+                if isinstance(n.target, ast.Tuple) and len(n.target.elts) == 2 and isinstance(b0, ast.Assign) and isinstance(b0.targets[0], ast.Subscript) and norm(b0.targets[0].value) == acc and norm(b0.targets[0].slice) == norm(n.target.elts[0]):
+                    muts.append((prefix, norm(n.iter), elt_text(b0.value, norm(n.target.elts[1])), "key"))
+                    continue
+            muts.append(None)
+        elif isinstance(n, ast.AugAssign) and norm(n.target) == acc and isinstance(n.op, ast.Add):
+            muts.append(comp(n.value, prefix))
+        elif isinstance(n, ast.Expr) and isinstance(n.value, ast.Call) and norm(n.value.func) == f"{acc}.extend" and len(n.value.args) == 1:
+            muts.append(comp(n.value.args[0], prefix))
+        elif isinstance(n, ast.Expr) and isinstance(n.value, ast.Call) and isinstance(n.value.func, ast.Attribute) and norm(n.value.func.value) == acc and n.value.func.attr in ("insert", "pop", "remove", "clear", "reverse", "sort", "update", "setdefault"):
+            muts.append(None)
+    if len(muts) != 1 or muts[0] is None:
+        return None
+    return muts[0]
+
+
